@@ -10,6 +10,7 @@ package main
 // types of the struct fields, of the parameters and of the package constants.
 
 import (
+	"math"
 	"fmt"
 	"go/ast"
 	"go/token"
@@ -54,7 +55,12 @@ var goSrcFuncs = []string{
 	"Array.AsFloat", "Array.AsInteger", "Array.AsUint64",
 	"ParsedJson.get_current_loc", "ParsedJson.write_tape", "ParsedJson.writeTapeTagVal", "ParsedJson.writeTapeTagValFlags",
 	"ParsedJson.write_tape_s64", "ParsedJson.write_tape_double", "ParsedJson.annotate_previousloc", "parseString", "addNumber",
+	"min", "max", "fmtF", "appendFloatF", "appendFloat",
 }
+
+// functions in which constant expressions are folded (as the compiler does) before printing; the functions translated
+// earlier print them operator by operator, and their proofs match those trees
+var goSrcFoldConsts = map[string]bool{"appendFloatF": true, "fmtF": true, "appendFloat": true, "min": true, "max": true}
 
 type goBlock struct {
 	fn, lean, from string
@@ -76,6 +82,7 @@ var goSrcBlocks = []goBlock{
 type structKind struct {
 	fields []string        // scalar fields, in the order of the Lean `fields` list (without lim)
 	ftypes map[string]gty
+	noTape bool            // a plain struct: no tape slice, no `lim`
 }
 
 var structKinds = map[string]structKind{
@@ -83,11 +90,25 @@ var structKinds = map[string]structKind{
 	"Object":     {fields: []string{"off"}, ftypes: map[string]gty{"off": tyInt}},
 	"Array":      {fields: []string{"off"}, ftypes: map[string]gty{"off": tyInt}},
 	"ParsedJson": {fields: []string{}, ftypes: map[string]gty{}},
+	"decimalSlice": {fields: []string{"d", "nd", "dp", "neg"}, ftypes: map[string]gty{"d": tyBytes, "nd": tyInt, "dp": tyInt, "neg": tyBool}, noTape: true},
 }
 
 func kindFields(k string) string {
-	fs := append(append([]string{}, structKinds[k].fields...), "lim")
+	fs := append([]string{}, structKinds[k].fields...)
+	if !structKinds[k].noTape {
+		fs = append(fs, "lim")
+	}
 	return leanStrList(fs)
+}
+
+// valKind: a struct passed by value (treated like a pointer parameter that the callee must not assign to)
+func valKind(e ast.Expr) (string, bool) {
+	id, ok := e.(*ast.Ident)
+	if !ok {
+		return "", false
+	}
+	k, ok := structKinds[id.Name]
+	return id.Name, ok && k.noTape
 }
 
 // pointer-to-struct type expression → kind
@@ -112,6 +133,7 @@ type lconstV struct {
 type gsTr struct {
 	pre      []string         // statements hoisted out of the expression being translated (calls with a result)
 	lazy     int              // > 0 while translating the right operand of && / ||: nothing may be hoisted from there
+	readonly map[string]bool    // struct parameters passed by value
 	aliasParams map[string]bool // `i!=dst`: pointer comparisons of the body, passed by callers as hidden boolean parameters
 	ntemp    int
 	curSwLabel string         // label of the switch statement about to be translated
@@ -322,6 +344,15 @@ func (t *gsTr) isTape(e ast.Expr) (string, bool) {
 
 // expr prints e; want is the type an untyped constant should take (tyUnk: none known).
 func (t *gsTr) expr(e ast.Expr, want gty) (string, gty) {
+	if be, ok := e.(*ast.BinaryExpr); ok && goSrcFoldConsts[t.fn] {
+		if v, ty, ok := t.constFold(be); ok {
+			// a constant expression: folded as the Go compiler does (exact integer arithmetic)
+			if ty == tyUntyped {
+				return t.untyped(e, v.String(), want)
+			}
+			return t.untyped(e, v.String(), ty)
+		}
+	}
 	switch x := e.(type) {
 	case *ast.ParenExpr:
 		return t.expr(x.X, want)
@@ -609,6 +640,18 @@ func (t *gsTr) expr(e ast.Expr, want gty) (string, gty) {
 			return fmt.Sprintf("(.appendB %s %s)", a, b), tyBytes
 		}
 		switch f := nows(src(x.Fun)); {
+		case (f == "math.IsNaN" && len(x.Args) == 1) || (f == "math.IsInf" && len(x.Args) == 2 && nows(src(x.Args[1])) == "0") || (f == "math.Abs" && len(x.Args) == 1):
+			a, aty := t.expr(x.Args[0], tyF64)
+			if aty != tyF64 {
+				gsDie(e, "float operand")
+			}
+			switch f {
+			case "math.IsNaN":
+				return fmt.Sprintf("(.fIsNaN %s)", a), tyBool
+			case "math.IsInf":
+				return fmt.Sprintf("(.fIsInf %s)", a), tyBool
+			}
+			return fmt.Sprintf("(.fabs %s)", a), tyF64
 		case f == "binary.LittleEndian.Uint32" && len(x.Args) == 1:
 			a, aty := t.expr(x.Args[0], tyUnk)
 			if aty != tyBytes {
@@ -663,6 +706,25 @@ func (t *gsTr) expr(e ast.Expr, want gty) (string, gty) {
 			}
 			return fmt.Sprintf("(.le64 %s)", a), tyU64
 		}
+		if fid, isId := x.Fun.(*ast.Ident); isId && t.locals[fid.Name] == tyUnk {
+			isFn := false
+			for _, f := range goSrcFuncs {
+				if f == fid.Name {
+					isFn = true
+				}
+			}
+			if isFn {
+				if recv, callee, ptrs, args, rtys, ok := t.methodCall(x); ok && len(rtys) == 1 {
+					if t.lazy > 0 {
+						gsDie(e, "call under the right operand of && or ||")
+					}
+					t.ntemp++
+					tmp := fmt.Sprintf("#c%d", t.ntemp)
+					t.pre = append(t.pre, fmt.Sprintf(".callAssign [%s] %s %s %s [%s]", strconv.Quote(tmp), strconv.Quote(recv), strconv.Quote(callee), leanStrList(ptrs), strings.Join(args, ", ")))
+					return fmt.Sprintf("(.v %s)", strconv.Quote(tmp)), rtys[0]
+				}
+			}
+		}
 		if _, isSel := x.Fun.(*ast.SelectorExpr); isSel {
 			if pk, ok := x.Fun.(*ast.SelectorExpr).X.(*ast.Ident); !ok || (pk.Name != "errors" && pk.Name != "fmt" && pk.Name != "math" && pk.Name != "binary" && pk.Name != "strconv" && pk.Name != "bytes") {
 				if recv, callee, ptrs, args, rtys, ok := t.methodCall(x); ok && len(rtys) == 1 {
@@ -711,6 +773,89 @@ func (t *gsTr) exprBytes(e ast.Expr) (string, gty) {
 		}
 	}
 	return t.exprMaybe(e)
+}
+
+// constFold evaluates a constant expression built from literals, package constants, constants of the function and
+// conversions of such to an integer type; ok=false when e is not of that form. ty is tyUntyped or the converted type.
+func (t *gsTr) constFold(e ast.Expr) (*big.Int, gty, bool) {
+	switch x := e.(type) {
+	case *ast.ParenExpr:
+		return t.constFold(x.X)
+	case *ast.BasicLit:
+		if x.Kind == token.INT {
+			v, ok := new(big.Int).SetString(x.Value, 0)
+			return v, tyUntyped, ok
+		}
+		if x.Kind == token.CHAR {
+			r, err := strconv.Unquote(x.Value)
+			if err == nil && len([]rune(r)) == 1 {
+				return big.NewInt(int64([]rune(r)[0])), tyUntyped, true
+			}
+		}
+	case *ast.Ident:
+		if _, isLocal := t.locals[x.Name]; isLocal {
+			return nil, tyUnk, false
+		}
+		if c, ok := t.lconst[x.Name]; ok {
+			v, ok := new(big.Int).SetString(c.val, 10)
+			return v, c.ty, ok
+		}
+		if _, ok := t.p.cexprs[x.Name]; ok {
+			ty := t.constType(x.Name)
+			if ty == tyUnk {
+				ty = tyUntyped
+			}
+			return t.p.constVal(x.Name), ty, true
+		}
+	case *ast.UnaryExpr:
+		if x.Op == token.SUB {
+			if v, ty, ok := t.constFold(x.X); ok {
+				return new(big.Int).Neg(v), ty, true
+			}
+		}
+	case *ast.CallExpr:
+		if id, ok := x.Fun.(*ast.Ident); ok && len(x.Args) == 1 {
+			if ty := tyOfTypeExpr(id); ty == tyInt || ty == tyU64 || ty == tyU8 || ty == tyU32 {
+				if v, _, ok := t.constFold(x.Args[0]); ok {
+					return v, ty, true
+				}
+			}
+		}
+	case *ast.BinaryExpr:
+		a, at, ok1 := t.constFold(x.X)
+		b, bt, ok2 := t.constFold(x.Y)
+		if !ok1 || !ok2 {
+			return nil, tyUnk, false
+		}
+		ty := at
+		if ty == tyUntyped {
+			ty = bt
+		}
+		if x.Op == token.SHL || x.Op == token.SHR {
+			ty = at
+		}
+		r := new(big.Int)
+		switch x.Op {
+		case token.ADD:
+			r.Add(a, b)
+		case token.SUB:
+			r.Sub(a, b)
+		case token.MUL:
+			r.Mul(a, b)
+		case token.SHL:
+			r.Lsh(a, uint(b.Int64()))
+		case token.SHR:
+			r.Rsh(a, uint(b.Int64()))
+		case token.AND:
+			r.And(a, b)
+		case token.OR:
+			r.Or(a, b)
+		default:
+			return nil, tyUnk, false
+		}
+		return r, ty, true
+	}
+	return nil, tyUnk, false
 }
 
 // exprTry translates a plain variable and reports its type; anything else reports tyUnk without aborting
@@ -766,6 +911,11 @@ func (t *gsTr) exprMaybe(e ast.Expr) (string, gty) {
 		}
 		if ty, ok := t.frees[nows(src(e))]; ok && ty == tyBytes {
 			return fmt.Sprintf("(.v %s)", strconv.Quote(nows(src(e)))), tyBytes
+		}
+		if id, ok := x.X.(*ast.Ident); ok && t.kinds[id.Name] != "" {
+			if structKinds[t.kinds[id.Name]].ftypes[x.Sel.Name] == tyBytes {
+				return fmt.Sprintf("(.v %s)", strconv.Quote(id.Name+"."+x.Sel.Name)), tyBytes
+			}
 		}
 	}
 	return "", tyUnk
@@ -911,6 +1061,18 @@ func (t *gsTr) binary(x *ast.BinaryExpr, want gty) (string, gty) {
 			}
 		}
 	}
+	if isCmp {
+		// a float64 variable against a float literal: the literal is converted to float64 exactly as the compiler does
+		if lit, ok := x.Y.(*ast.BasicLit); ok && (lit.Kind == token.FLOAT || lit.Kind == token.INT) {
+			if a, at := t.exprTry(x.X); at == tyF64 && (lit.Kind == token.FLOAT || x.Op == token.EQL || x.Op == token.NEQ || x.Op == token.LEQ) {
+				f, err := strconv.ParseFloat(lit.Value, 64)
+				if err != nil {
+					gsDie(x, "float literal")
+				}
+				return fmt.Sprintf("(.fcmpF %s %s %d /- %s -/)", name, a, math.Float64bits(f), lit.Value), tyBool
+			}
+		}
+	}
 	if isCmp && isUntypedConst(t, x.Y) && !isUntypedConst(t, x.X) {
 		if a, at := t.exprTry(x.X); at == tyF64 {
 			k := t.constInt(x.Y)
@@ -1027,6 +1189,14 @@ func (t *gsTr) callArgs(call *ast.CallExpr, recv, callee string) (string, string
 			}
 			a := call.Args[k]
 			k++
+			if kind, isVal := valKind(f.Type); isVal {
+				id, isId := a.(*ast.Ident)
+				if !isId || t.kinds[id.Name] != kind {
+					gsDie(a, "struct argument must be a %s variable", kind)
+				}
+				ptrs = append(ptrs, id.Name)
+				continue
+			}
 			if kind, isPtr := ptrKind(f.Type); isPtr {
 				if u, isAddr := a.(*ast.UnaryExpr); isAddr && u.Op == token.AND {
 					a = u.X // &x: the struct variable x itself
@@ -1202,6 +1372,9 @@ func (t *gsTr) lvalue(e ast.Expr) (string, gty) {
 			return g, tyBytes
 		}
 		if id, ok := x.X.(*ast.Ident); ok && t.kinds[id.Name] != "" && !t.iters[id.Name] {
+			if t.readonly[id.Name] {
+				gsDie(e, "assignment to a field of a struct passed by value")
+			}
 			if ty, ok := structKinds[t.kinds[id.Name]].ftypes[x.Sel.Name]; ok {
 				return id.Name + "." + x.Sel.Name, ty
 			}
@@ -1299,6 +1472,21 @@ func (t *gsTr) stmt0(s ast.Stmt, ind string) string {
 			if call, ok := x.Rhs[0].(*ast.CallExpr); ok {
 				f := nows(src(call.Fun))
 				name := map[string]string{"escapeBytes": "escapeBytes", "strconv.AppendInt": "AppendInt", "strconv.AppendUint": "AppendUint", "appendFloat": "appendFloat"}[f]
+				if f == "appendFloat" && t.fn == "appendFloat" {
+					name = ""
+				}
+				if f == "strconv.AppendFloat" {
+					if len(call.Args) != 5 || nows(src(call.Args[2])) != "'e'" || nows(src(call.Args[3])) != "-1" || nows(src(call.Args[4])) != "64" {
+						gsDie(s, "strconv.AppendFloat format")
+					}
+					d, dty := t.expr(call.Args[0], tyBytes)
+					v, vty := t.expr(call.Args[1], tyF64)
+					tgt, _ := t.lvalue(x.Lhs[0])
+					if dty != tyBytes || vty != tyF64 || len(x.Lhs) != 1 {
+						gsDie(s, "strconv.AppendFloat operands")
+					}
+					return fmt.Sprintf(".extAssign [%s] \"AppendFloatE\" [%s, %s]", strconv.Quote(tgt), d, v)
+				}
 				nargs := 2
 				if name == "AppendInt" || name == "AppendUint" {
 					if len(call.Args) != 3 || nows(src(call.Args[2])) != "10" {
@@ -1515,6 +1703,17 @@ func (t *gsTr) stmt0(s ast.Stmt, ind string) string {
 				}
 				return fmt.Sprintf(".setLen %s %s", strconv.Quote(base), e)
 			}
+			// b[idx] = e for a byte slice variable
+			if ix, ok := x.Lhs[0].(*ast.IndexExpr); ok {
+				if bid, ok := ix.X.(*ast.Ident); ok && t.locals[bid.Name] == tyBytes {
+					idx, ity := t.expr(ix.Index, tyInt)
+					e, ety := t.expr(x.Rhs[0], tyU8)
+					if ity != tyInt || ety != tyU8 {
+						gsDie(s, "byte store types")
+					}
+					return fmt.Sprintf(".setB %s %s %s", strconv.Quote(bid.Name), idx, e)
+				}
+			}
 			// x.tape.Tape[idx] = e
 			if ix, ok := x.Lhs[0].(*ast.IndexExpr); ok {
 				if base, ok := t.isTape(ix.X); ok {
@@ -1708,6 +1907,16 @@ func (t *gsTr) stmt0(s ast.Stmt, ind string) string {
 		if len(vs.Names) != 1 || len(vs.Values) != 0 || vs.Type == nil {
 			gsDie(s, "declaration shape")
 		}
+		if id, ok := vs.Type.(*ast.Ident); ok && structKinds[id.Name].noTape {
+			n := vs.Names[0].Name
+			t.kinds[n] = id.Name
+			var parts []string
+			for _, f := range structKinds[id.Name].fields {
+				zero := map[gty]string{tyInt: "(.int 0)", tyBool: "(.bool false)", tyBytes: ".nilB"}[structKinds[id.Name].ftypes[f]]
+				parts = append(parts, fmt.Sprintf(".assign %s %s", strconv.Quote(n+"."+f), zero))
+			}
+			return strings.Join(parts, ",\n"+ind)
+		}
 		if id, ok := vs.Type.(*ast.Ident); ok && id.Name == "Iter" {
 			// a zero Iter: no tape
 			n := vs.Names[0].Name
@@ -1757,10 +1966,13 @@ func (t *gsTr) stmt0(s ast.Stmt, ind string) string {
 		return fmt.Sprintf(".rangeB %s %s %s", strconv.Quote(v.Name), e, t.block(x.Body.List, ind))
 	case *ast.ForStmt:
 		if x.Init != nil || x.Post != nil {
-			if x.Init == nil || x.Post == nil || x.Cond == nil {
+			if x.Post == nil || x.Cond == nil {
 				gsDie(s, "for clause shape")
 			}
-			ini := t.stmt(x.Init, ind+"  ")
+			ini := ""
+			if x.Init != nil {
+				ini = t.stmt(x.Init, ind+"  ")
+			}
 			c, ty := t.expr(x.Cond, tyBool)
 			if ty != tyBool {
 				gsDie(s, "loop condition type")
@@ -1853,6 +2065,22 @@ func (t *gsTr) stmt0(s ast.Stmt, ind string) string {
 		if cbs, ok := t.callback(call, "_"); ok {
 			return cbs
 		}
+		if id, ok := call.Fun.(*ast.Ident); ok && id.Name == "ryuFtoaShortest" && len(call.Args) == 3 {
+			u, ok := call.Args[0].(*ast.UnaryExpr)
+			if !ok || u.Op != token.AND {
+				gsDie(s, "ryuFtoaShortest argument")
+			}
+			did, ok := u.X.(*ast.Ident)
+			if !ok || t.kinds[did.Name] != "decimalSlice" {
+				gsDie(s, "ryuFtoaShortest argument")
+			}
+			m, mty := t.expr(call.Args[1], tyU64)
+			e2, ety := t.expr(call.Args[2], tyInt)
+			if mty != tyU64 || ety != tyInt {
+				gsDie(s, "ryuFtoaShortest operands")
+			}
+			return fmt.Sprintf(".extAssign [%s, %s, %s] \"ryuFtoaShortest\" [%s, %s]", strconv.Quote(did.Name+".d"), strconv.Quote(did.Name+".nd"), strconv.Quote(did.Name+".dp"), m, e2)
+		}
 		if id, ok := call.Fun.(*ast.Ident); ok && id.Name == "copy" && len(call.Args) == 2 {
 			d := call.Args[0]
 			if sl, ok := d.(*ast.SliceExpr); ok && sl.Low == nil && sl.High == nil {
@@ -1939,7 +2167,7 @@ func genGoSrc(p *pkgInfo, out string) {
 			die("gosrc: function %s not found", fn)
 		}
 		t := &gsTr{p: p, fn: fn, iters: map[string]bool{}, locals: map[string]gty{}, kinds: map[string]string{},
-			lconst: map[string]lconstV{}, poison: map[string]bool{}, swLabels: map[string]bool{}, loopLabels: map[string]bool{}, aliasParams: map[string]bool{}}
+			lconst: map[string]lconstV{}, poison: map[string]bool{}, swLabels: map[string]bool{}, loopLabels: map[string]bool{}, aliasParams: map[string]bool{}, readonly: map[string]bool{}}
 		t.iterFieldTypes()
 		t.frees = map[string]gty{}
 		rkind := "Iter"
@@ -1964,6 +2192,13 @@ func genGoSrc(p *pkgInfo, out string) {
 		var ptrParams []string
 		for _, f := range fd.Type.Params.List {
 			for _, nm := range f.Names {
+				if k, ok := valKind(f.Type); ok {
+					// a struct passed by value: its fields are part of the environment; the callee must not assign to them
+					t.kinds[nm.Name] = k
+					t.readonly[nm.Name] = true
+					ptrParams = append(ptrParams, fmt.Sprintf("(%s, %s)", strconv.Quote(nm.Name), kindFields(k)))
+					continue
+				}
 				if k, ok := ptrKind(f.Type); ok {
 					t.kinds[nm.Name] = k
 					if k == "Iter" {
@@ -2036,7 +2271,7 @@ func genGoSrc(p *pkgInfo, out string) {
 			die("gosrc: function %s not found", bs.fn)
 		}
 		t := &gsTr{p: p, fn: bs.fn, iters: map[string]bool{}, locals: map[string]gty{}, tapes: bs.tapes, frees: bs.frees, rtys: bs.rtys,
-			kinds: map[string]string{}, lconst: map[string]lconstV{}, poison: map[string]bool{}, swLabels: map[string]bool{}, loopLabels: map[string]bool{}, aliasParams: map[string]bool{}}
+			kinds: map[string]string{}, lconst: map[string]lconstV{}, poison: map[string]bool{}, swLabels: map[string]bool{}, loopLabels: map[string]bool{}, aliasParams: map[string]bool{}, readonly: map[string]bool{}}
 		t.iterFieldTypes()
 		for n, ty := range bs.locals {
 			t.locals[n] = ty
